@@ -19,6 +19,7 @@ import (
 	"math/rand"
 	"net"
 	"net/http"
+	"net/url"
 	"sort"
 	"strings"
 	"sync"
@@ -448,6 +449,28 @@ type exporterUT struct {
 	shutdown func(ctx context.Context) error
 }
 
+// <pkg>Proxy returns the package's WithProxy option when on, an option without effect otherwise.
+func otlptracehttpProxy(on bool, f func(*http.Request) (*url.URL, error)) otlptracehttp.Option {
+	if on {
+		return otlptracehttp.WithProxy(otlptracehttp.HTTPTransportProxyFunc(f))
+	}
+	return otlptracehttp.WithHeaders(nil)
+}
+
+func otlpmetrichttpProxy(on bool, f func(*http.Request) (*url.URL, error)) otlpmetrichttp.Option {
+	if on {
+		return otlpmetrichttp.WithProxy(otlpmetrichttp.HTTPTransportProxyFunc(f))
+	}
+	return otlpmetrichttp.WithHeaders(nil)
+}
+
+func otlploghttpProxy(on bool, f func(*http.Request) (*url.URL, error)) otlploghttp.Option {
+	if on {
+		return otlploghttp.WithProxy(otlploghttp.HTTPTransportProxyFunc(f))
+	}
+	return otlploghttp.WithHeaders(nil)
+}
+
 type retryCfg struct {
 	enabled                bool
 	initial, max, maxTotal time.Duration
@@ -508,6 +531,11 @@ func (engine) Body(r *simdrv.Run) {
 	}
 	ctxTimeout := []time.Duration{0, 0, 150 * time.Millisecond, 4 * time.Second, 20 * time.Second}[r.Cfg(5)]
 	shutdownAt := []time.Duration{-1, -1, -1, 0, 50 * time.Millisecond, 999 * time.Millisecond, time.Second, 1001 * time.Millisecond, 6 * time.Second}[r.Cfg(9)]
+	// a proxy function that chooses no proxy sends the HTTP exporters down the branch that builds their
+	// client on a cloned transport (after seeded change C14-h)
+	useProxy := !w.isGRPC && r.Cfg(3) == 0
+	noProxy := func(*http.Request) (*url.URL, error) { return nil, nil }
+	r.Res.Config["proxy_option"] = useProxy
 	r.Res.Config["gzip"] = useGzip
 	r.Res.Config["concurrent_calls"] = w.concurrent
 	r.Res.Config["exporter"] = kind
@@ -598,7 +626,7 @@ func (engine) Body(r *simdrv.Run) {
 		case "tracehttp":
 			otlptracehttp.VerifSimSetDial(hc.dial)
 			cleanup = append(cleanup, otlptracehttp.VerifSimCloseIdle)
-			e, e2 := otlptracehttp.New(ctx0, otlptracehttp.WithEndpoint("sim:4318"), otlptracehttp.WithInsecure(), otlptracehttp.WithTimeout(expTimeout), otlptracehttp.WithCompression(map[bool]otlptracehttp.Compression{true: otlptracehttp.GzipCompression, false: otlptracehttp.NoCompression}[useGzip]),
+			e, e2 := otlptracehttp.New(ctx0, otlptracehttp.WithEndpoint("sim:4318"), otlptracehttp.WithInsecure(), otlptracehttpProxy(useProxy, noProxy), otlptracehttp.WithTimeout(expTimeout), otlptracehttp.WithCompression(map[bool]otlptracehttp.Compression{true: otlptracehttp.GzipCompression, false: otlptracehttp.NoCompression}[useGzip]),
 				otlptracehttp.WithRetry(otlptracehttp.RetryConfig{Enabled: rc.enabled, InitialInterval: rc.initial, MaxInterval: rc.max, MaxElapsedTime: rc.maxTotal}))
 			err = e2
 			if e != nil {
@@ -609,7 +637,7 @@ func (engine) Body(r *simdrv.Run) {
 		case "metrichttp":
 			otlpmetrichttp.VerifSimSetDial(hc.dial)
 			cleanup = append(cleanup, otlpmetrichttp.VerifSimCloseIdle)
-			e, e2 := otlpmetrichttp.New(ctx0, otlpmetrichttp.WithEndpoint("sim:4318"), otlpmetrichttp.WithInsecure(), otlpmetrichttp.WithTimeout(expTimeout), otlpmetrichttp.WithCompression(map[bool]otlpmetrichttp.Compression{true: otlpmetrichttp.GzipCompression, false: otlpmetrichttp.NoCompression}[useGzip]),
+			e, e2 := otlpmetrichttp.New(ctx0, otlpmetrichttp.WithEndpoint("sim:4318"), otlpmetrichttp.WithInsecure(), otlpmetrichttpProxy(useProxy, noProxy), otlpmetrichttp.WithTimeout(expTimeout), otlpmetrichttp.WithCompression(map[bool]otlpmetrichttp.Compression{true: otlpmetrichttp.GzipCompression, false: otlpmetrichttp.NoCompression}[useGzip]),
 				otlpmetrichttp.WithRetry(otlpmetrichttp.RetryConfig{Enabled: rc.enabled, InitialInterval: rc.initial, MaxInterval: rc.max, MaxElapsedTime: rc.maxTotal}))
 			err = e2
 			if e != nil {
@@ -618,7 +646,7 @@ func (engine) Body(r *simdrv.Run) {
 		default:
 			otlploghttp.VerifSimSetDial(hc.dial)
 			cleanup = append(cleanup, otlploghttp.VerifSimCloseIdle)
-			e, e2 := otlploghttp.New(ctx0, otlploghttp.WithEndpoint("sim:4318"), otlploghttp.WithInsecure(), otlploghttp.WithTimeout(expTimeout), otlploghttp.WithCompression(map[bool]otlploghttp.Compression{true: otlploghttp.GzipCompression, false: otlploghttp.NoCompression}[useGzip]),
+			e, e2 := otlploghttp.New(ctx0, otlploghttp.WithEndpoint("sim:4318"), otlploghttp.WithInsecure(), otlploghttpProxy(useProxy, noProxy), otlploghttp.WithTimeout(expTimeout), otlploghttp.WithCompression(map[bool]otlploghttp.Compression{true: otlploghttp.GzipCompression, false: otlploghttp.NoCompression}[useGzip]),
 				otlploghttp.WithRetry(otlploghttp.RetryConfig{Enabled: rc.enabled, InitialInterval: rc.initial, MaxInterval: rc.max, MaxElapsedTime: rc.maxTotal}))
 			err = e2
 			if e != nil {
